@@ -104,7 +104,13 @@ func c11Main(r *run.Runner) {
 	r.Sample("T | join kind = inner ( R | where y > 1 ) on ( $left . x ) == $right . y")
 }
 
-func c11Replay(w *run.Worker, v *run.Viol) { c11Source(w, v.Source, true) }
+func c11Replay(w *run.Worker, v *run.Viol) {
+	if v.Check == "walk-vs-reflection:unpruned" {
+		c11Unpruned(w, v.Source)
+		return
+	}
+	c11Source(w, v.Source, true)
+}
 
 func c11Source(w *run.Worker, src string, pairs bool) {
 	w.Begin("walk-vs-reflection", src)
